@@ -5,15 +5,15 @@
         -> <OK|MORE> <live> <buffhex16> <data>
        runs Model.Scan.scan on (live, buff, data = 0, words).
 
-    occ <live> <buffhex16> <skip> <words>
+    scan.occ <live> <buffhex16> <skip> <words>
         -> <effStart> <i | none>
        Spec oracle: effective start e as the code computes it, and the end
        index i (relative to e) of the first header candidate (pattern + 32
        bits) lying wholly inside the remaining bits after e.
 
-    delta <s> <b>          -> Spec.Scan.δ s b      (generic KMP transition)
-    mini <s> <b>           -> Model mini_dfa[s][b]
-    big <s> <c>            -> Model big_dfa[s][c]
+    scan.delta <s> <b>       -> Spec.Scan.δ s b      (generic KMP transition)
+    scan.mini <s> <b>        -> Model mini_dfa[s][b]
+    scan.big <s> <c>         -> Model big_dfa[s][c]
 -/
 import LbzVerif.Model.Scan
 
@@ -54,7 +54,7 @@ def handle (cmd : String) (args : List String) : Option String :=
     some <| match parseBS a b d, c.toNat? with
       | some bs, some skip => showRes (scan bs skip)
       | _, _ => "bad-args"
-  | "occ", [a, b, c, d] =>
+  | "scan.occ", [a, b, c, d] =>
     some <| match parseBS a b d, c.toNat? with
       | some bs, some skip =>
         let e := effStart bs skip
@@ -63,15 +63,15 @@ def handle (cmd : String) (args : List String) : Option String :=
           | none => "none"
         s!"{e} {r}"
       | _, _ => "bad-args"
-  | "delta", [a, b] =>
+  | "scan.delta", [a, b] =>
     some <| match a.toNat?, b.toNat? with
       | some s, some b => toString (Spec.Scan.δ s (b != 0))
       | _, _ => "bad-args"
-  | "mini", [a, b] =>
+  | "scan.mini", [a, b] =>
     some <| match a.toNat?, b.toNat? with
       | some s, some b => toString (mini s (b != 0))
       | _, _ => "bad-args"
-  | "big", [a, b] =>
+  | "scan.big", [a, b] =>
     some <| match a.toNat?, b.toNat? with
       | some s, some c => toString (big s c)
       | _, _ => "bad-args"
